@@ -9,3 +9,13 @@ mod utils;
 pub use engine::BRC20ProgEngine;
 pub use precompiles::validate_bitcoin_rpc_status;
 pub use utils::{get_evm_address_from_pkscript, TxInfo};
+
+#[cfg(feature = "verif-hooks")]
+pub(crate) fn verif_get_gas_limit(inscription_byte_len: u64) -> u64 {
+    utils::get_gas_limit(inscription_byte_len)
+}
+
+#[cfg(feature = "verif-hooks")]
+pub(crate) fn verif_get_inscription_byte_len(gas_limit: u64) -> u64 {
+    utils::get_inscription_byte_len(gas_limit)
+}
